@@ -391,6 +391,12 @@ def _with_alarm(seconds: int, fn: Callable[[], Any]) -> Any:
         signal.signal(signal.SIGALRM, old)
 
 
+def _listing(d: pathlib.Path) -> set:
+    if not d.is_dir():
+        return set()
+    return {str(p.relative_to(d)) for p in d.rglob("*")}
+
+
 def run_main(
     model_path: pathlib.Path,
     snippets_dir: pathlib.Path,
@@ -398,7 +404,7 @@ def run_main(
     target: str,
     text: Optional[str],
     arg_defect: str = "none",
-    timeout: int = 120,
+    timeout: int = 900,
     cache_flag: bool = False,
 ) -> Dict[str, Any]:
     """One traced run of main.execute. `text` is the model text when the model path is a regular file."""
@@ -411,6 +417,8 @@ def run_main(
     params = cg_main.Parameters(model_path=model_path, target=cg_main.Target(target), snippets_dir=snippets_dir, output_dir=output_dir, cache_model=cache_flag)
     exc: Optional[BaseException] = None
     rc: Any = NORC
+    before = _listing(output_dir)
+    TR.log("CheckArgs")  # the basic checks of main.execute are inline code: the event is synthesized
     TR.active = True
     try:
         rc = _with_alarm(timeout, lambda: cg_main.execute(params, stdout=out, stderr=err))
@@ -434,7 +442,7 @@ def run_main(
         cache = "off"
     so_lines = stdout.split("\n")
     tail_ok = len(so_lines) >= 2 and so_lines[-1] == "" and so_lines[-2] == "Code generated to: %s" % output_dir
-    out_written = output_dir.is_dir() and any(output_dir.iterdir())
+    out_written = len(_listing(output_dir) - before) > 0
     return {
         "tool": "main",
         "input": {"argDefect": arg_defect, "parses": bool(text is not None and parses_as_python(text)), "cache": cache},
@@ -462,7 +470,7 @@ def run_main(
     }
 
 
-def run_smoke(model_path: pathlib.Path, text: str, timeout: int = 120) -> Dict[str, Any]:
+def run_smoke(model_path: pathlib.Path, text: str, timeout: int = 900) -> Dict[str, Any]:
     from aas_core_codegen.smoke import main as smoke_main
 
     install()
